@@ -399,7 +399,7 @@ func (a *ctxHiding) readDirFilter(fn hookFn, e ast.Expr, ctxtObj types.Object) b
 	runs := 0
 	for ; runs < 256; runs++ {
 		or.pos = 0
-		in := &Interp{repo: c.Repo, plugin: "derive", decls: c.R.decls, or: or, memo: map[string]int{}, shape: 2, arities: []int{2, 1, 0},
+		in := &Interp{repo: c.Repo, plugin: "derive", decls: c.GDecls, or: or, memo: map[string]int{}, shape: 2, arities: []int{2, 1, 0},
 			preds: map[string]Value{}, stack: map[*ast.FuncDecl]int{}, imports: map[string]int{}, importUse: map[string]bool{}, holes: map[string]*Hole{}, g9mode: true}
 		listing := &VList{}
 		for i := 0; i < n; i++ {
